@@ -34,6 +34,23 @@ using FState = flat::State;
 
 namespace {
 
+// The hidden operand of the codebook search is state of RegisterState in the pinned tree. A tree that keeps it somewhere else
+// still builds: the flat field then reads 0 and cannot be set (a difference shows through the instructions that use it).
+template <class R>
+auto get_p0h_cbs(const R& r, int) -> decltype((u16)r.p0h_cbs) {
+    return r.p0h_cbs;
+}
+template <class R>
+u16 get_p0h_cbs(const R&, long) {
+    return 0;
+}
+template <class R>
+auto set_p0h_cbs(R& r, u16 v, int) -> decltype((void)(r.p0h_cbs = v)) {
+    r.p0h_cbs = v;
+}
+template <class R>
+void set_p0h_cbs(R&, u16, long) {}
+
 struct Core {
     CoreTiming core_timing;
     SharedMemory shared_memory;
@@ -135,7 +152,7 @@ void visible_to_flat(const RegisterState& r, FState& s) {
     s[F_vtr0] = r.vtr0;
     s[F_vtr1] = r.vtr1;
     s[F_hwm] = r.hwm;
-    s[F_p0h_cbs] = r.p0h_cbs;
+    s[F_p0h_cbs] = get_p0h_cbs(r, 0);
     for (int i = 0; i < 8; ++i) {
         s[F_r + i] = r.r[i];
         s[F_m + i] = r.m[i];
@@ -236,7 +253,7 @@ void flat_to_visible(const FState& s, RegisterState& r) {
     r.vtr0 = (u16)s[F_vtr0];
     r.vtr1 = (u16)s[F_vtr1];
     r.hwm = (u16)s[F_hwm];
-    r.p0h_cbs = (u16)s[F_p0h_cbs];
+    set_p0h_cbs(r, (u16)s[F_p0h_cbs], 0);
     for (int i = 0; i < 8; ++i) {
         r.r[i] = (u16)s[F_r + i];
         r.m[i] = (u16)s[F_m + i];
